@@ -31,10 +31,10 @@ func (g *gen) assignTarget(want func(*Type) bool) Expr {
 	// Known finding (tag storage-store.array-of-array, HLSL): storing a value that
 	// contains an array of arrays to a storage buffer declares the temporary as
 	// "T[M] _valueN[K]", which is not an HLSL declarator.
-	if len(cands) > 0 && g.f.off("storage-store.array-of-array") {
+	{
 		keep := cands[:0]
 		for _, c := range cands {
-			if rv := RootVar(c.root); rv != nil && rv.Kind == VStorage && hasArrayOfArray(c.t) {
+			if rv := RootVar(c.root); rv != nil && rv.Kind == VStorage && hasArrayOfArray(c.t) && g.f.off("storage-store.array-of-array") {
 				continue
 			}
 			keep = append(keep, c)
@@ -554,7 +554,7 @@ func (g *gen) fillBuffer(t *Type, size int) []byte {
 // GenExec draws a valid compute program with input buffers.
 func GenExec(t *rapid.T, f Features) *ExecCase {
 	g := &gen{t: t, f: f, mod: &Module{}, classes: map[string]bool{}}
-	g.multi = f.Multi && g.chance(25, "multi")
+	g.multi = f.Multi && !f.Hostile && g.chance(25, "multi")
 	wg := [3]int{1, 1, 1}
 	ngroups := 1
 	if g.multi {
@@ -625,6 +625,18 @@ func GenExec(t *rapid.T, f Features) *ExecCase {
 		n := 1 + g.intn(5, "rtn")
 		c.Buffers[[2]int{0, rt.Binding}] = g.fillBuffer(rt.T, SizeOfRT(rt.T, n))
 		g.class("runtime-array")
+	}
+	if f.Hostile && f.Floats {
+		hv := &Var{Name: "hostf", Kind: VStorage, Access: "read", T: Array(TF32, 8), Group: 0, Binding: nextBinding()}
+		addGlobal(hv)
+		g.hostileF = hv
+		vals := []float32{float32(math.Inf(1)), float32(math.Inf(-1)), 2147483648, -2147483904, 4294967296, -1, 3e38, -3e38, 2147483520, 4294967040, 1.5e9, -0.75}
+		buf := make([]byte, 32)
+		for i := 0; i < 8; i++ {
+			binary.LittleEndian.PutUint32(buf[4*i:], math.Float32bits(vals[g.intn(len(vals), "hostv")]))
+		}
+		c.Buffers[[2]int{0, hv.Binding}] = buf
+		g.class("hostile-floats")
 	}
 	// outputs
 	outS := g.newStruct(2, []*Type{TI32, TU32, TF32, Vec(2+g.intn(3, "ovn"), g.numKind())})
